@@ -32,6 +32,7 @@ PROP = dict(
         U("roaring-unmarshal", "./roaring", "^TestVerifC06_UnmarshalBinary$", 8000, 240000, sq=2, sth=6),
         U("roaring-import", "./roaring", "^TestVerifC06_ImportRoaringBits$", 6000, 160000, sq=3, sth=8),
         U("parse", "./pql", "^TestVerifC06_ParseString$", 6000, 120000, sq=2, sth=4),
+        U("fragimport", ".", "^TestVerifC06_FragmentImport$", 1500, 40000, sq=2, sth=6),
         U("stored", ".", "^TestVerifC06_StoredFragment$", 2400, 60000, sq=2, sth=6),
     ],
 )
